@@ -56,7 +56,10 @@ def st_case(draw):
     for _ in range(draw(st.sampled_from([0, 0, 1, 2]))):
         more.append({"dt": draw(st.sampled_from([0, 1, 5])),
                      "resubmit": draw(st.lists(st.integers(0, n - 1), max_size=3, unique=True))})
-    return {"backend": draw(st.sampled_from(["kv", "sql"])), "T": T, "events": evs, "more": more}
+    # what else is going on while the first pass runs: nothing; a stored query whose rows are only half consumed (SQL: the
+    # pass gets another pooled connection); accepted events still waiting in the LMDB writer queue (few / over a thousand)
+    overlap = draw(st.sampled_from([None, None, None, "stream", "stream", "backlog:3", "backlog:3", "backlog:1200"]))
+    return {"backend": draw(st.sampled_from(["kv", "sql"])), "T": T, "events": evs, "more": more, "overlap": overlap}
 
 
 def verdict(ev, T):
@@ -102,7 +105,10 @@ class GC(Sub):
         viol = []
         labels = ["backend:" + backend]
         clock = H.Clock(T - 100)
-        async with H.Rig(backend, validators=[], clock=clock) as rig:
+        overlap = case.get("overlap")
+        filler = []
+        async with H.Rig(backend, validators=[], clock=clock,
+                         file_db=True if (backend == "sql" and overlap == "stream") else None) as rig:
             w = rig.conn()
             await w.send(["REQ", "w", {"kinds": KINDS}])
             for ev in case["events"]:
@@ -120,9 +126,27 @@ class GC(Sub):
             else:
                 from nostr_relay.storage.kv import KVGarbageCollector as GCc
             gc = GCc(rig.storage)
+            agen = None
+            if overlap == "stream" and backend == "sql":
+                labels.append("pass-overlaps-open-result-stream")
+                agen = rig.storage.run_single_query([{"kinds": KINDS}])
+                try:
+                    await agen.__anext__()
+                except StopAsyncIteration:
+                    agen = None
+            elif overlap and overlap.startswith("backlog") and backend == "kv":
+                labels.append("pass-with-writer-" + overlap)
+                for j in range(int(overlap.split(":")[1])):
+                    f = E.free("%064x" % (0xf1 << 200 | j), E.ADJ_HEX[4], 1, T + 5000 + j, [], "filler")
+                    filler.append(f["id"])
+                    await rig.storage.add_event(dict(f))
             await gc.run_once()
+            if agen is not None:
+                async for _ in agen:   # the reader finishes its stream after the pass (an abandoned generator would keep
+                    pass               # its cursor - and with it an old snapshot - until the interpreter finalizes it)
+            rig.pump()
             await rig.settle()
-            after = await rig.dump()
+            after = {i: e for i, e in (await rig.dump()).items() if i not in filler}
             for rnd in case.get("more", []):
                 labels.append("multi-pass")
                 verdicts = self.judge(backend, before, after, T, viol)
@@ -130,12 +154,12 @@ class GC(Sub):
                     break
                 for j in rnd["resubmit"]:
                     await rig.add(case["events"][j])
-                before = await rig.dump()
+                before = {i: e for i, e in (await rig.dump()).items() if i not in filler}
                 T = T + rnd["dt"]
                 clock.now = float(T) + 0.5
                 await gc.run_once()
                 await rig.settle()
-                after = await rig.dump()
+                after = {i: e for i, e in (await rig.dump()).items() if i not in filler}
             verdicts = self.judge(backend, before, after, T, viol)
             for i in after:
                 if i not in before:
@@ -145,7 +169,7 @@ class GC(Sub):
                 from props.c10 import expected_keys
                 actual = {k for k, _ in rig.kv_items() if k[:1] not in (b"\x00", b"\xee")}
                 must, may = set(), set()
-                for rec in after.values():
+                for rec in (await rig.dump()).values():
                     m, y, _ = expected_keys(rec)
                     must |= m
                     may |= y
